@@ -53,6 +53,11 @@ func (s *kvStore) apply(ops []Operation) {
 	s.mu.Lock()
 	defer s.mu.Unlock()
 	for _, op := range ops {
+		// Late feedback for an overwritten version must not replace the newer,
+		// still-infected operation, or the newer write would never be gossiped.
+		if cur, ok := s.data[string(op.Key)]; ok && cur.Version.NewerThan(op.Version) {
+			continue
+		}
 		s.data[string(op.Key)] = op
 	}
 }
